@@ -335,6 +335,10 @@ def ctx_scopes(ctx):
 
 def confirm(spec, po, label, model):
     """A solver model refuting an obligation: replay on the real code before reporting."""
+    if 'independence:' in label:
+        # a data race between prange iterations is undefined behaviour that no run can confirm deterministically
+        return {'kind': 'nonrepro', 'detail': 'UB-CANDIDATE (not replayable, reported separately): %s in %s -- two '
+                'prange iterations can touch the same location' % (label, spec['name'])}
     if po.witness is None:
         return {'kind': 'harness_error', 'detail': 'refuted obligation %s but harness has no replay' % label}
     try:
